@@ -115,6 +115,31 @@ Theorem C19_wf_preserved : forall net limit d, wf d -> wf (snd (clean_pass net l
 Proof. exact wf_pass. Qed.
 Print Assumptions C19_wf_preserved.
 
+(* clean() removes nothing when both classes are within their limits (content: or unlimited). *)
+Theorem C19_clean_within_limits : forall cl nl d,
+  (Z.of_N (used_mb false d) <= cl)%Z \/ cl = 0%Z -> (Z.of_N (used_mb true d) <= nl)%Z -> clean cl nl d = (([], []), d).
+Proof. exact clean_within_limits. Qed.
+Print Assumptions C19_clean_within_limits.
+
+(* No pass ever increases the usage of either class. *)
+Theorem C19_usage_never_increases : forall net net' limit d,
+  used_mb net' (snd (clean_pass net limit d)) <= used_mb net' d.
+Proof. exact usage_never_increases. Qed.
+Print Assumptions C19_usage_never_increases.
+
+(* Which blobs go: a pass deletes a prefix of the candidate list of its class ... *)
+Theorem C19_deletes_prefix : forall net limit d, exists rest, cands net d = pass_rows net limit d ++ rest.
+Proof. exact pass_rows_prefix. Qed.
+Print Assumptions C19_deletes_prefix.
+
+(* ... and that list is ordered as the queries say: network blobs largest first (oldest first among equal sizes);
+   content: stream blobs oldest first (smaller first among equal ages), then stream descriptors oldest first. *)
+Theorem C19_candidates_sorted : forall d,
+  sorted_by net_le (cands true d) /\
+  exists cb sd, cands false d = cb ++ sd /\ sorted_by content_le cb /\ sorted_by sd_le sd.
+Proof. exact cands_sorted. Qed.
+Print Assumptions C19_candidates_sorted.
+
 (* A history can be cut anywhere (the correspondence steps the extracted [run] one operation at a time). *)
 Theorem C19_run_app : forall ops1 ops2 d,
   run (ops1 ++ ops2) d =
